@@ -264,6 +264,37 @@ def run_interpreted(chk, cases, ref_results, variants, stats, hangs):
                 judge(chk, vname, c, c['alias'][0], r, o, stats)
 
 
+def rebuild_awareness(chk, scratch, env, cmd):
+    """after the build every compiled module must be rebuilt by the same documented command when its own source OR the source of an
+    accelerated module it imports kernels from changes (pyccel links those into the importing extension): `make -n` (dry run) after
+    giving one source a newer time stamp must list the translation of every module that depends on it"""
+    import ast
+    src = {m: os.path.join(scratch, 'pygyro', pk, m + '.py') for m, pk in K.PKG.items()}
+    deps = {m: {m} for m in src}
+    for m, f in src.items():
+        for node in ast.walk(ast.parse(open(f).read())):
+            if isinstance(node, ast.ImportFrom) and node.module and node.module.split('.')[-1] in src:
+                deps[m].add(node.module.split('.')[-1])
+    dry = cmd[:1] + ['-n'] + cmd[1:]
+    base = subprocess.run(dry, cwd=scratch, env=env, capture_output=True, text=True, timeout=300)
+    if base.returncode != 0 or any((m + '.py') in base.stdout for m in src):
+        chk.count('rebuild check skipped: the tree is not up to date right after the build')
+        return
+    for changed in sorted(src):
+        st = os.stat(src[changed])
+        os.utime(src[changed], (st.st_atime, time.time() + 5))
+        p = subprocess.run(dry, cwd=scratch, env=env, capture_output=True, text=True, timeout=300)
+        os.utime(src[changed], (st.st_atime, st.st_mtime))
+        want = sorted(m for m in src if changed in deps[m])
+        missing = [m for m in want if (m + '.py') not in p.stdout]
+        if p.returncode != 0 or missing:
+            chk.fail('C19:stale-build', 'after a change of %s.py the documented build does not regenerate %s: the compiled kernels would keep '
+                     'running the old source' % (changed, ', '.join(missing) or '(make -n failed)'),
+                     {'changed_source': changed + '.py', 'cmd': ' '.join(dry)}, expected={'regenerated': want},
+                     actual={'dry_run_output': p.stdout[-800:], 'exit': p.returncode})
+        chk.count('rebuild dry runs')
+
+
 def build_and_run(chk, cases, ref_results, ref_names, stats):
     """(b): documented build in a scratch copy, kernels run in a worker process"""
     tmp = tempfile.mkdtemp(prefix='c19_build_')
@@ -283,6 +314,7 @@ def build_and_run(chk, cases, ref_results, ref_names, stats):
                      actual={'exit': p.returncode, 'so': so, 'log': (p.stdout + p.stderr)[-1500:]})
             return
         chk.count('build: succeeded, %d extension modules' % len(so))
+        rebuild_awareness(chk, scratch, env, cmd)
         fin, fout = os.path.join(tmp, 'cases.pkl'), os.path.join(tmp, 'results.pkl')
         pickle.dump(cases, open(fin, 'wb'))
         w = subprocess.run([sys.executable, os.path.join(str(common.VERIF), 'harness', 'kernel_args.py'), '--worker', scratch, fin, fout],
